@@ -273,6 +273,8 @@ type world struct {
 	untamed bool
 	// foreign: the model was configured with a record under a key it does not carry
 	foreign bool
+	// icpt: the mode collection has an id interceptor (config.Icpt): the listing is in key order, not in id order
+	icpt string
 	// park, when set, is the WithExpectedCheck callback of a DeleteMode / UpdateMode whose check is named "pk" (forced.go)
 	park func(proto.Message) error
 }
@@ -284,6 +286,9 @@ type config struct {
 	Active *mode  `json:"active,omitempty"`
 	// Recs: initial records given directly, WithModeOption(resource.WithInitialRecord(key, mode)); used instead of Modes
 	Recs []keyed `json:"records,omitempty"`
+	// Icpt: "lower" = the mode collection is configured with WithModeOption(resource.WithIDInterceptor(strings.ToLower))
+	// (icpt.go: own operation alphabet, own monitor with an oracle that compares ids up to spelling)
+	Icpt string `json:"id_interceptor,omitempty"`
 }
 
 // keyed is an initial record: a mode stored under a key of the caller's choosing.
@@ -312,12 +317,23 @@ func (c config) placeholderID() string {
 
 // line renders the configuration for the Lean driver.
 func (c config) line() string {
-	if c.Active == nil && len(c.Modes) == 0 && len(c.Recs) == 0 {
+	if c.Active == nil && len(c.Modes) == 0 && len(c.Recs) == 0 && c.Icpt == "" {
 		return "reset"
 	}
 	a := mode{}
 	if c.Active != nil {
 		a = *c.Active
+	}
+	if c.Icpt != "" {
+		rs := "-"
+		if len(c.Recs) > 0 {
+			xs := make([]string, len(c.Recs))
+			for i, r := range c.Recs {
+				xs[i] = "k" + hexs(r.Key) + "=" + r.Mode.String()
+			}
+			rs = strings.Join(xs, ";")
+		}
+		return "iconfig " + c.Icpt + " " + a.String() + " " + rs
 	}
 	if len(c.Recs) > 0 {
 		xs := make([]string, len(c.Recs))
@@ -348,10 +364,11 @@ func (c config) invalid() bool {
 		seen[m.ID] = true
 	}
 	for _, r := range c.Recs {
-		if seen[r.Key] {
+		// (an initial record is kept under the id interceptor's image of its key, 215ba16)
+		if seen[c.canon(r.Key)] {
 			return true
 		}
-		seen[r.Key] = true
+		seen[c.canon(r.Key)] = true
 	}
 	return false
 }
@@ -359,8 +376,11 @@ func (c config) invalid() bool {
 func newWorld() *world { return newWorldCfg(config{}) }
 
 func newWorldCfg(c config) *world {
-	w := &world{clk: &fakeClock{}, rng: &scriptReader{}, foreign: c.foreign()}
+	w := &world{clk: &fakeClock{}, rng: &scriptReader{}, foreign: c.foreign(), icpt: c.Icpt}
 	opts := []resource.Option{electricpb.WithClock(w.clk), resource.WithRNG(w.rng)}
+	if c.Icpt == "lower" {
+		opts = append(opts, electricpb.WithModeOption(resource.WithIDInterceptor(strings.ToLower)))
+	}
 	if len(c.Modes) > 0 {
 		ms := make([]*traits.ElectricMode, len(c.Modes))
 		for i, m := range c.Modes {
@@ -565,7 +585,7 @@ func (w *world) stateString(s snap) string {
 		ms[i] = showMode(m)
 	}
 	// (the listing is in KEY order: by id only while every record carries its key)
-	if len(s.Orphans) == 0 && !w.foreign && !w.untamed && !sort.SliceIsSorted(s.Modes, func(i, j int) bool { return s.Modes[i].Id < s.Modes[j].Id }) {
+	if len(s.Orphans) == 0 && !w.foreign && !w.untamed && w.icpt == "" && !sort.SliceIsSorted(s.Modes, func(i, j int) bool { return s.Modes[i].Id < s.Modes[j].Id }) {
 		ms = append(ms, "UNSORTED")
 	}
 	n := "-"
